@@ -2013,13 +2013,92 @@ func c07R9(c *Ctx) {
 		return
 	}
 	ansObj := funcObjOf(ans)
-	scrub := StoreBarrier("resp.Answer = FilterRRsToZone(…)", answerF, CallTo(filter))
 	isRootConst := func(e *Expr) bool {
 		e = strip(e)
 		return e != nil && e.K == EConst && e.Val != nil && e.Val.Kind() == constant.String && constant.StringVal(e.Val) == "."
 	}
 	atRoot := OnCmp("zone == \".\"", FieldIs(zoneF), token.EQL, isRootConst, true)
 	noAnswer := OnCmp("len(resp.Answer) == 0", c07Len(FieldIs(answerF)), token.GTR, IsConstInt(0), false)
+	// scrubbed: the value stored into Answer is FilterRRsToZone(…) itself, or the
+	// result of an unexported same-package helper that the filter (and possibly the
+	// root / empty-section test next to it) was extracted into.  The helper is
+	// judged on its own CFG with its parameters read as the call's arguments:
+	// every return is either behind the root / empty-section edge, or behind a
+	// FilterRRsToZone call whose result is used AND returns a value built from such
+	// a call (a filter whose result is dropped scrubs nothing).
+	usedFilterCall := Barrier{Name: "FilterRRsToZone(…) (result used)", Instr: func(in ssa.Instruction) bool {
+		cl, ok := in.(*ssa.Call)
+		if !ok || !callIs(&cl.Call, filter) {
+			return false
+		}
+		refs := cl.Referrers()
+		return refs != nil && len(*refs) > 0
+	}}
+	scrubMemo := map[ssa.Value]bool{}
+	var scrubbed func(e *Expr, depth int) bool
+	scrubbed = func(e *Expr, depth int) bool {
+		if CallTo(filter)(e) {
+			return true
+		}
+		e = strip(e)
+		if e != nil && e.K == EExtract {
+			e = strip(e.X)
+		}
+		if e == nil || e.K != ECall || e.V == nil || depth > 2 {
+			return false
+		}
+		cl, ok := e.V.(*ssa.Call)
+		if !ok {
+			return false
+		}
+		if v, ok := scrubMemo[e.V]; ok {
+			return v
+		}
+		scrubMemo[e.V] = false
+		h := localHelper(cl.Parent(), &cl.Call)
+		if h == nil {
+			return false
+		}
+		args := make([]*Expr, len(cl.Call.Args))
+		for i, a := range cl.Call.Args {
+			args[i] = Desc(a)
+		}
+		behind := func(bars []Barrier) *reachResult {
+			hc := &helperCtx{always: map[helperKey]int{}, implies: map[helperKey]int{}, act: map[*ssa.Function][]*Expr{}}
+			hc.act[h] = args
+			return reachH(entryPoint(h), bars, nil, hc)
+		}
+		noFilterNeeded := behind([]Barrier{atRoot, noAnswer})
+		viaFilter := behind([]Barrier{usedFilterCall, atRoot, noAnswer})
+		nret := 0
+		for _, b := range h.Blocks {
+			for _, in := range b.Instrs {
+				ret, ok := in.(*ssa.Return)
+				if !ok {
+					continue
+				}
+				nret++
+				if !noFilterNeeded.visited[in] {
+					continue // only reached at the root / with nothing to filter
+				}
+				if viaFilter.visited[in] || len(ret.Results) == 0 {
+					return false // a return reachable without filtering
+				}
+				fromFilter := false
+				for _, rv := range ret.Results {
+					if Contains(func(x *Expr) bool { return scrubbed(x, depth+1) })(Desc(rv)) {
+						fromFilter = true
+					}
+				}
+				if !fromFilter {
+					return false // the filter ran but what is returned does not come from it
+				}
+			}
+		}
+		scrubMemo[e.V] = nret > 0
+		return nret > 0
+	}
+	scrub := StoreBarrier("resp.Answer = FilterRRsToZone(…)", answerF, func(e *Expr) bool { return scrubbed(e, 0) })
 	key := R + "|resolve|answer section scrubbed before relay"
 	bad := ""
 	nfrom := 0
